@@ -317,7 +317,7 @@ class Session:
         return self.loop.create_task(wrapper(), name=f"user-{name}")
 
     # -- running --------------------------------------------------------------------------------
-    def run(self, make_client, scenario, until: float = 120.0, status_cb="ok", recv_cb="ok", heartbeat=True):
+    def run(self, make_client, scenario, until: float = 120.0, status_cb="ok", recv_cb="ok", heartbeat=True, register="first"):
         """make_client() -> client (called inside the loop); scenario(sess) schedules everything else"""
         import nmea2000.ioclient as ioc
         loop = self.loop
@@ -337,6 +337,26 @@ class Session:
                 self.n_status_raised = getattr(self, "n_status_raised", 0) + 1
                 raise callback_failure(self.n_status_raised, "status callback failed")
             self.ev("StatusDone", r="ok")
+
+        self.stale = []                # messages handed to a receive callback that was no longer the registered one
+        self.current_receiver = None
+
+        def register_receiver(tag):
+            """(re)register a receive callback of its own identity; None removes it - what set_receive_callback offers"""
+            self.current_receiver = tag
+            self.ev("Register", tag=str(tag))
+            if tag is None:
+                self.client.set_receive_callback(None)
+                return
+
+            async def tagged(msg, tag=tag):
+                if self.current_receiver != tag:
+                    self.stale.append((tag, msg))
+                    self.ev("StaleDeliver", tag=str(tag))
+                    return
+                await receive(msg)
+            self.client.set_receive_callback(tagged)
+        self.register_receiver = register_receiver
 
         async def receive(msg):
             n = len(self.delivered)
@@ -365,7 +385,8 @@ class Session:
         async def boot():
             self.client = make_client()
             self.client.set_status_callback(status)
-            self.client.set_receive_callback(receive)
+            if register == "first":
+                self.client.set_receive_callback(receive)
             self.ev("Created")
             scenario(self)
 
